@@ -570,8 +570,11 @@ def gen_inter_case(seed: int, s: int, wid: int) -> dict:
     pol = prng.choice(("uniform", "uniform", "pct", "hot"))
     pop = {"policy": pol, "p": prng.choice((0.003, 0.02, 0.1, 0.3)) if pol == "uniform" else prng.choice((0.003, 0.02)),
            "pct_d": prng.randint(1, 4)}
+    # cold: the interleaved pass runs before the sequential one (a memo filled by an uninterrupted pass would
+    # hide what a pre-empted first computation leaves behind); whether it does depends on the worker, so a
+    # poisoned sequential pass shows as a difference between the workers of the group
     return {"prop": "C11", "kind": "inter", "seed": seed, "scenario": s, "worker": wid, "callers": callers, "pop": pop,
-            "flags": flags}
+            "flags": flags, "cold": prng.random() < 0.4}
 
 
 def run_inter_case(case: dict, explicit: bool = False) -> dict:
@@ -609,19 +612,29 @@ def run_inter_case(case: dict, explicit: bool = False) -> dict:
                     rec_lines[(c, k)] = s.states[c].line
         return body
 
-    s0.run({c: mk_body(c, seq, lines) for c in sorted(callers)})
+    def seq_pass() -> None:
+        s0.run({c: mk_body(c, seq, lines) for c in sorted(callers)})
+
+    def inter_pass() -> Any:
+        if explicit or "schedule" in case:
+            s1 = Sched(mode="explicit", explicit=case.get("schedule") or [])
+        else:
+            pop = case["pop"]
+            s1 = Sched(mode="prng", seed=f"{case['seed']}:C11i:{case['scenario']}:{case['worker']}", policy=pop["policy"],
+                       p=pop["p"], pct_d=pop["pct_d"], pct_k=max(10, sum(lines.values()) or 2000))
+        s1.run({c: mk_body(c, got, None) for c in sorted(callers)})
+        return s1
+
+    got: dict[tuple, Any] = {}
+    if case.get("cold"):
+        s1 = inter_pass()
+        seq_pass()
+    else:
+        seq_pass()
+        s1 = inter_pass()
     for (c, k), val in sorted(seq.items()):
         xv[f"{c}.{k}"] = val
         xd[f"{c}.{k}"] = digest(val)
-    # interleaved pass
-    if explicit or "schedule" in case:
-        s1 = Sched(mode="explicit", explicit=case.get("schedule") or [])
-    else:
-        pop = case["pop"]
-        s1 = Sched(mode="prng", seed=f"{case['seed']}:C11i:{case['scenario']}:{case['worker']}", policy=pop["policy"],
-                   p=pop["p"], pct_d=pop["pct_d"], pct_k=max(10, sum(lines.values())))
-    got: dict[tuple, Any] = {}
-    s1.run({c: mk_body(c, got, None) for c in sorted(callers)})
     case["_rec_schedule"] = s1.schedule()
     stats["events"] = s0.events + s1.events
     stats["switches"] = s1.switches
